@@ -204,6 +204,7 @@ def rule_tighten(ctx: Ctx, prog: Program) -> None:
         loop = loops[0]
         upd_param = fn.params[2] if len(fn.params) > 2 else None
         n_found = 0
+        n_exit = 0
         guard_seen = False
         for bp in loop.paths:
             so = calls_named(bp.events, "solve_one")
@@ -223,6 +224,32 @@ def rule_tighten(ctx: Ctx, prog: Program) -> None:
             resets = [i for i, e in enumerate(evs) if e.kind == "call" and e.name and e.name.endswith(":reset")]
             tights = [i for i, e in enumerate(evs) if e.kind == "icall" and upd_param is not None and as_view(e.recv) == View(upd_param, ())]
             where = f"BacktrackSolver.{worker}"
+            if not tights and bp.outcome in ("break", "return"):
+                # an iteration that found a solution and *leaves* the loop needs no tightening -- it needs a reason why nothing better exists.
+                # Decided here: the search space under the current bound is exhausted (backtrack() answered 'no alternative left' on this
+                # path: depth-first, the incumbent was the last leaf).  Any other conditional exit is listed, not judged; an exit on every
+                # improving path (the loop never searches past its first solution) is decided below.
+                n_exit += 1
+                exhausted = False
+                for e in calls_named(evs[i_solve:], "backtrack"):
+                    rv = it.scalar(bp.state, e.ret) if e.ret is not None else None
+                    if isinstance(rv, Aff) and bp.state.facts.decide(cmp_cond("==", rv, ZERO)) is True:
+                        exhausted = True
+                recorded = True
+                if worker == "optimize":
+                    recorded = any(as_view(v) == sol and n not in ("solution",) for n, v in bp.state.env.items())
+                else:
+                    recorded = any(e.kind == "mcall" and e.name == "put" and e.args and e.args[0].__class__.__name__ == "Tup" and len(e.args[0].items) == 3
+                                   and as_view(e.args[0].items[1]) == sol for e in evs[i_solve:])
+                if not recorded:
+                    ctx.violation("R-TIGHTEN", fn.path, where, "incumbent", fn.loc(),
+                                  f"{worker}: a path leaves the loop with a solution found in this iteration that was neither recorded as the incumbent nor queued")
+                elif exhausted:
+                    ctx.ok("R-TIGHTEN", f"{worker}: leaves after a solution when no alternative is left on the stack (the incumbent was the last leaf)")
+                else:
+                    ctx.undecided_site("R-TIGHTEN", f"{worker}:conditional-exit-after-solution",
+                                       "a conditional exit after a found solution whose justification (nothing better exists) is not one this rule can decide")
+                continue
             if len(tights) != 1:
                 ctx.violation("R-TIGHTEN", fn.path, where, "tighten-call", fn.loc(),
                               f"{worker}: an iteration that found a solution makes {len(tights)} tightening calls (expected 1)")
@@ -286,7 +313,11 @@ def rule_tighten(ctx: Ctx, prog: Program) -> None:
             if _has_emptiness_exit(it, loop, bp, ti, MIN, MAX):
                 guard_seen = True
         ctx.floor(f"R-TIGHTEN:{worker}:improving-paths", n_found, 1)
-        if n_found:
+        if n_found and n_exit == n_found:
+            ctx.violation("R-TIGHTEN", fn.path, f"BacktrackSolver.{worker}", "tighten-call", fn.loc(),
+                          f"{worker}: every iteration that finds a solution leaves the loop: no search is ever made past the first solution "
+                          "(0 tightening calls), so the first solution found is returned as the optimum")
+        elif n_found:
             if guard_seen:
                 ctx.ok("R-TIGHTEN", f"{worker}: emptiness of the tightened objective domain ends the loop",
                        sample={"guard": "exit edge depending on stack[T, dom_indices[variable_idx], MIN/MAX] read after the tightening"})
